@@ -103,11 +103,14 @@ def build_read(header, name, contig, ref_upper, rd, mate_rd, umi, extra_tags):
 
 class Runner:
     def __init__(self, fasta_path, contigs):
-        from singlecellmultiomics.molecule import TAPSNlaIIIMolecule, TAPSCHICMolecule, TAPS
-        from singlecellmultiomics.fragment import NlaIIIFragment, CHICFragment
-        self.cls = {'nla': (TAPSNlaIIIMolecule, NlaIIIFragment), 'chic': (TAPSCHICMolecule, CHICFragment)}
-        self.taps = TAPS()
+        from singlecellmultiomics.molecule import TAPSNlaIIIMolecule, TAPSCHICMolecule, TAPSMolecule, TAPS
+        from singlecellmultiomics.fragment import NlaIIIFragment, CHICFragment, Fragment
+        from pysamiterators import CachedFasta
+        self.cls = {'nla': (TAPSNlaIIIMolecule, NlaIIIFragment), 'chic': (TAPSCHICMolecule, CHICFragment),
+                    'base': (TAPSMolecule, Fragment)}
+        self.taps = TAPS()          # ONE instance for all molecules / contigs / conventions, as the taggers do
         self.fa = pysam.FastaFile(fasta_path)
+        self.cached = CachedFasta(self.fa)   # the reference wrapper bamtagmultiome hands to the molecules
         self.refs = dict(contigs)
         self.header = pysam.AlignmentHeader.from_dict(
             {'HD': {'VN': '1.6'}, 'SQ': [{'SN': n, 'LN': len(s)} for n, s in contigs]})
@@ -120,8 +123,10 @@ class Runner:
         mcls, fcls = self.cls[mol['cls']]
         ev = {'ev': 'mol', 'tid': tid, 'src': mol['src'], 'cls': mol['cls'], 'conv': mol['conv'], 'contig': contig,
               'ref': list(ref), 'raised': '', 'strand': -1, 'frags': [], 'calls': [], 'n_frags_offered': len(mol['frags']),
-              'gen': json.dumps({'tags': mol.get('tags', {}), 'frag_kwargs': mol.get('frag_kwargs', {})})}
-        m = None
+              'pre': mol.get('pre', ''), 'refobj': mol.get('refobj', 'fasta'), 'history': mol.get('history', 'once'),
+              'gen': json.dumps({'tags': mol.get('tags', {}), 'frag_kwargs': mol.get('frag_kwargs', {}),
+                                 'unmap': mol.get('unmap', [])})}
+        m, requeried = None, None
         try:
             frags = []
             for i, f in enumerate(mol['frags']):
@@ -130,9 +135,25 @@ class Runner:
                                 mol.get('tags', {})) if 1 in rds else None
                 r2 = build_read(self.header, 'm%d_f%d' % (tid, i), contig, ref_upper, rds[2], rds.get(1), 'ACG',
                                 mol.get('tags', {})) if 2 in rds else None
+                if i in mol.get('unmap', []) and r2 is not None:     # half-mapped pair: mate 2 carries no alignment
+                    r2.is_unmapped = True
+                    r2.cigarstring = None
                 frags.append(fcls([r1, r2], **mol.get('frag_kwargs', {})))
-            m = mcls(frags, reference=self.fa, taps=self.taps, taps_strand=mol['conv'])
-            m.__finalise__()
+            refobj = self.cached if mol.get('refobj') == 'cached' else self.fa
+            hist = mol.get('history', 'once')
+            if hist == 'incremental' and len(frags) > 1:
+                # history: finalise on the first fragment, extend, finalise again (no stale calls / tags may survive)
+                m = mcls([frags[0]], reference=refobj, taps=self.taps, taps_strand=mol['conv'])
+                m.__finalise__()
+                for fr in frags[1:]:
+                    m.add_fragment(fr)
+                m.__finalise__()
+            else:
+                m = mcls(frags, reference=refobj, taps=self.taps, taps_strand=mol['conv'])
+                m.__finalise__()
+            if hist == 'requery':
+                # the other return path: the dictionary returned by a second obtain_methylation_calls()
+                requeried = m.obtain_methylation_calls()
         except Exception as ex:  # a crash of the code under test on a legal input is an observation
             ev['raised'] = type(ex).__name__
             ev['raised_msg'] = str(ex)[:200]
@@ -141,7 +162,7 @@ class Runner:
             for fr in m.fragments:
                 reads = []
                 for r in fr.reads:
-                    if r is None:
+                    if r is None or r.is_unmapped:
                         continue
                     reads.append({'mate': 1 if r.is_read1 else 2, 'rev': bool(r.is_reverse), 'start': int(r.reference_start),
                                   'cigar': [[int(o), int(n)] for o, n in r.cigartuples],
@@ -150,7 +171,7 @@ class Runner:
                                   'xm': list(r.get_tag('XM')) if r.has_tag('XM') else [],
                                   'tot': {t: (int(r.get_tag(t)) if r.has_tag(t) else -1) for t in TOT_TAGS}})
                 ev['frags'].append({'reads': reads})
-            d = m.methylation_call_dict
+            d = requeried if (not ev['raised'] and mol.get('history') == 'requery') else m.methylation_call_dict
             ev['dict_none'] = d is None
             for (c, p), v in sorted((d or {}).items()):
                 ev['calls'].append({'contig': str(c), 'p': int(p), 'letter': str(v.get('context', '.')),
@@ -162,7 +183,7 @@ class Runner:
 # random molecules
 
 def random_reference(rng):
-    n = rng.choice([8, 12, 16, 20, 24, 30, 40, 60])
+    n = rng.choice([3, 5, 8, 12, 16, 20, 24, 30, 40, 60])
     style = rng.random()
     if style < 0.35:
         s = [rng.choice('ACGT') for _ in range(n)]
@@ -223,6 +244,10 @@ def make_cigar(rng, length, allow_lead_clip, allow_trail_clip):
         cig = [[4, rng.randint(1, 3)]] + cig
     if allow_trail_clip and rng.random() < 0.15:
         cig = cig + [[4, rng.randint(1, 3)]]
+    if allow_lead_clip and rng.random() < 0.08:      # hard clips are outermost and consume nothing
+        cig = [[5, rng.randint(1, 4)]] + cig
+    if allow_trail_clip and rng.random() < 0.08:
+        cig = cig + [[5, rng.randint(1, 4)]]
     return cig
 
 
@@ -259,8 +284,10 @@ def synth_read(rng, ref_upper, target, meth, mate, rev, a, b, cigar, qual_style,
         q = [30] * len(seq)
     elif qual_style == 1:
         q = [20] * len(seq)
+    elif qual_style == 3:
+        q = [0] * len(seq)                           # phred 0 ('!') is a legal quality
     else:
-        q = [rng.choice([10, 20, 30, 40]) for _ in seq]
+        q = [rng.choice([0, 10, 20, 30, 40]) for _ in seq]
     return {'mate': mate, 'rev': rev, 'start': a, 'cigar': cigar, 'seq': seq, 'qual': q}
 
 
@@ -268,7 +295,7 @@ def random_molecule(rng, k):
     """abstract description of one molecule + its own contig"""
     ref = random_reference(rng)
     n = len(ref)
-    cls = rng.choice(['nla', 'chic'])
+    cls = rng.choice(['nla', 'chic', 'base'])
     conv = rng.choice(['F', 'R'])
     rev = rng.random() < 0.5
     target = ('G' if rev else 'C') if conv == 'F' else ('C' if rev else 'G')
@@ -294,10 +321,10 @@ def random_molecule(rng, k):
     meth = set(p for p in range(n) if ref_upper[p] == target and rng.random() < meth_p)
     err = rng.choice([0.0, 0.0, 0.03, 0.1])
     nfr = rng.choice([1, 1, 1, 2, 2, 3, 4])
-    r1_cigar = make_cigar(rng, r1b - r1a, allow_lead_clip=False, allow_trail_clip=False)
+    r1_cigar = make_cigar(rng, r1b - r1a, allow_lead_clip=rev and not motif, allow_trail_clip=not rev and not motif)
     frags = []
     for _ in range(nfr):
-        qs1, qs2 = rng.choice([0, 1, 2]), rng.choice([0, 1, 2])
+        qs1, qs2 = rng.choice([0, 1, 2, 2, 3]), rng.choice([0, 1, 2, 2, 3])
         # the 3' end of read 1 may differ between fragments; the 5' end (cut site) is shared
         if rng.random() < 0.5 and r1b - r1a > 5 and not motif:
             cut = rng.randint(1, r1b - r1a - 4)
@@ -315,8 +342,17 @@ def random_molecule(rng, k):
         c2 = make_cigar(rng, b2 - a2, allow_lead_clip=True, allow_trail_clip=True)
         r2 = synth_read(rng, ref_upper, target, meth, 2, not rev, a2, b2, c2, qs2, set(), err)
         frags.append({'reads': [r1, r2]})
-    return {'src': 'random', 'cls': cls, 'conv': conv, 'contig': 'r%d' % k, 'ref': ref_s, 'frags': frags,
-            'tags': {'lh': 'TA'} if cls == 'chic' else {}}
+    mol = {'src': 'random', 'cls': cls, 'conv': conv, 'contig': 'r%d' % k, 'ref': ref_s, 'frags': frags,
+           'tags': {'lh': 'TA'} if cls == 'chic' else {}, 'refobj': rng.choice(['fasta', 'cached']),
+           'history': rng.choice(['once', 'once', 'incremental', 'requery'])}
+    if rng.random() < 0.02:
+        # half-mapped pair (mate 2 unmapped): outside the statement's quantifier, recorded as an observation only
+        pairs = [i for i, f in enumerate(frags) if len(f['reads']) == 2]
+        if pairs:
+            mol['unmap'] = [pairs[0]]
+            mol['pre'] = 'unmapped_mate'
+            mol['src'] = 'halfmapped'
+    return mol
 
 
 # ------------------------------------------------------------------------------------------------
@@ -324,14 +360,16 @@ def random_molecule(rng, k):
 
 def scenario_molecule(scn, k, src):
     ref = ''.join(scn['ref'])
-    cls = 'chic' if k % 2 == 0 else 'nla'
+    cls = ('chic', 'nla', 'base')[k % 3]
     frags = []
     for f in scn['frags']:
         frags.append({'reads': [{'mate': r['mate'], 'rev': r['rev'], 'start': r['start'], 'cigar': [[0, len(r['seq'])]],
                                  'seq': list(r['seq']), 'qual': list(r['qual'])} for r in f['reads']]})
     return {'src': src, 'cls': cls, 'conv': scn['conv'], 'contig': 'w_' + ref, 'ref': ref, 'frags': frags,
             'tags': {'lh': 'TA'} if cls == 'chic' else {},
-            'frag_kwargs': {'check_motif': False} if cls == 'nla' else {}}
+            'frag_kwargs': {'check_motif': False} if cls == 'nla' else {},
+            'refobj': ('fasta', 'cached')[(k // 3) % 2],
+            'history': ('once', 'incremental', 'requery')[(k // 6) % 3]}
 
 
 def replay_event(ev_path, out):
@@ -342,7 +380,8 @@ def replay_event(ev_path, out):
     mol = {'src': ev.get('src', 'replay'), 'cls': ev['cls'], 'conv': ev['conv'], 'contig': ev['contig'], 'ref': ''.join(ev['ref']),
            'frags': [{'reads': [{k: r[k] for k in ('mate', 'rev', 'start', 'cigar', 'seq', 'qual')} for r in f['reads']]}
                      for f in ev['frags']],
-           'tags': gen.get('tags', {}), 'frag_kwargs': gen.get('frag_kwargs', {})}
+           'tags': gen.get('tags', {}), 'frag_kwargs': gen.get('frag_kwargs', {}), 'unmap': gen.get('unmap', []),
+           'pre': ev.get('pre', ''), 'refobj': ev.get('refobj', 'fasta'), 'history': ev.get('history', 'once')}
     contigs = [(mol['contig'], mol['ref'])]
     fasta = os.path.join(os.getcwd(), 'taps_replay_%d.fa' % os.getpid())
     write_fasta(fasta, contigs)
